@@ -256,6 +256,8 @@ def gen_item(rng, kind, odd):
     if odd and rng.random() < 0.04:     # ill-typed / null literal (judged against the ImplModel only)
         k2 = rng.choice(['null', 'n', 's', 'b'])
         return ('lit', NULL if k2 == 'null' else gen_atom(rng, k2))
+    if rng.random() < 0.03:
+        return ('lit', NULL)                # the null literal is a test like any other literal
     if kind == 'b':
         return ('lit', gen_atom(rng, 'b'))
     c = rng.random()
@@ -368,7 +370,7 @@ def gen_tuples(rng, t, n, odd=True):
         if xs not in chosen:
             chosen.append(xs)
     chosen = chosen[:n]
-    if odd and rng.random() < 0.1 and chosen:          # a null input value
+    if odd and rng.random() < 0.15 and chosen:         # a null input value
         xs = list(chosen[-1])
         xs[rng.randrange(len(xs))] = NULL
         chosen[-1] = xs
@@ -377,7 +379,7 @@ def gen_tuples(rng, t, n, odd=True):
 
 # ------------------------------------------------------------------ the check
 def model_term(t, tuples):
-    return ('let t := %s in map (fun xs => (dt_impl t xs, dt_impl_orig t xs, dt_spec t xs, (wf t && typed t xs)%%bool, length (hits t xs))) %s'
+    return ('let t := %s in map (fun xs => (dt_impl t xs, dt_impl_orig t xs, dt_spec t xs, (wf t && typed t xs)%%bool, length (hits t xs), (wf t && typed_nl t xs)%%bool)) %s'
             % (coq_table(t), coq_list([coq_tuple(xs) for xs in tuples])))
 
 
@@ -391,10 +393,18 @@ def describe(t, xs):
     return {'table': strip(t), 'inputs': xs, 'xml': table_xml(t), 'context': ctx_text(t, xs)}
 
 
+def has_null_literal(t):
+    def items(u):
+        return [] if u[0] == 'any' else u[1]
+    return (any(i == ('lit', NULL) for r in t['rules'] for u in r['in'] for i in items(u)) or
+            any(i == ('lit', NULL) for ic in t['inputs'] if ic['values'] for i in ic['values']) or
+            any(a == NULL for oc in t['outputs'] if oc['values'] for a in oc['values']))
+
+
 def known_class(t, xs, nhits):
     """classes of listed known findings (key or None)"""
-    if nhits == 0 and len(t['outputs']) > 1 and any(oc['default'] is not None for oc in t['outputs']):
-        return 'default-output-compound'
+    if has_null_literal(t):
+        return 'null-literal-entry'
     return None
 
 
@@ -404,7 +414,7 @@ def judge(ctx, t, tuples, ans, mres, stats):
         ctx.violation('evaluating a generated decision table killed the process: %s' % json.dumps(ans)[:200], describe(t, tuples[0] if tuples else []), impl=ans)
         return
     for k, xs in enumerate(tuples):
-        m_impl, m_orig, m_spec, hyp, nhits = mres[k]
+        m_impl, m_orig, m_spec, hyp, nhits, hyp_nl = mres[k]
         m_impl, m_orig, m_spec = canon_model(m_impl), canon_model(m_orig), canon_model(m_spec)
         if ans.get('parse') != 'ok':
             got = ('parse-' + str(ans.get('parse')),)
@@ -424,6 +434,12 @@ def judge(ctx, t, tuples, ans, mres, stats):
         case = describe(t, xs)
         show = dict(impl=list(got), model=list(m_impl), spec=list(m_spec))
         if got == m_impl:
+            if not hyp and hyp_nl and m_impl != m_spec:
+                # inside the hypotheses but for null literals: the listed known finding, anything else is a violation
+                key = known_class(t, xs, nhits)
+                if not (key and ctx.known(key, case)):
+                    ctx.violation('decision table result %s is not what the hit policy %s prescribes (%s); the code behaves as its model' % (got, t['hp'], m_spec), case, **show)
+                continue
             if not hyp or m_impl == m_spec:
                 if len(ctx.samples) < 4 and nhits >= 2 and len(t['rules']) <= 4 and len(t['inputs']) <= 2:
                     ctx.sample({'hit_policy': t['hp'], 'rules': [[feel_utest(u) for u in r['in']] + ['=>'] + [feel_atom(a) for a in r['out']] for r in t['rules']],
@@ -495,7 +511,7 @@ def replay(ctx, path):
     print('context :', ctx_text(t, xs))
     print('implementation:', json.dumps(ans)[:500])
     print('ImplModel     :', canon_model(mres[0][0]))
-    print('Spec          :', canon_model(mres[0][2]), '(hypotheses hold: %s, hits: %s)' % (mres[0][3], mres[0][4]))
+    print('Spec          :', canon_model(mres[0][2]), '(hypotheses hold: %s, hits: %s; without the null-literal exclusion: %s)' % (mres[0][3], mres[0][4], mres[0][5]))
     stats = {'hits': {}, 'policy': {}, 'hyp': {}}
     judge(ctx, t, [xs], ans, mres, stats)
     fail = bool(ctx.violations or ctx.broken)
@@ -511,5 +527,5 @@ MANIFEST = dict(
          'no-hit default (context for several output clauses), contexts keyed by component names, no index panic on well-shaped tables. '
          'The model is tied to decision_table.rs / builders.rs by evaluating thousands of generated tables through ModelEvaluator and comparing with the model evaluated by vm_compute.',
     note='Hypotheses of the refinement: well-shaped table (>=1 output clause, one entry per clause in every rule, several outputs named distinctly) and well-typed tuple '
-         '(non-null inputs, literals of an entry have the kind of the input). Outside them (null inputs, ill-typed literals) only code = ImplModel is checked. '
+         '(literals of an entry have the kind of the input value; null inputs are covered for entries made of literals and `-`; no null literal in the table: known finding null-literal-entry). Outside them (null inputs, ill-typed literals) only code = ImplModel is checked. '
          'Values are abstract (integers, strings, booleans); input expressions are plain names; FEEL parsing of entries is sampled, not proved. Three defects of the pinned commit were repaired (fix: commits) and are refuted for dt_impl_orig.')
